@@ -38,7 +38,8 @@ ExcerptOk(d) ==
       off == d.c0 - (FirstNonWs(src, 1) - 1)
       n   == d.c1 - d.c0 + 1
       m   == d.marker
-  IN /\ d.excerpt = Trim(src)
+  IN /\ d.gutter_delta = 0            \* excerpt row and marker row start at the same printed column
+     /\ d.excerpt = Trim(src)
      /\ d.shown_line = d.line + 1
      /\ off >= 0 /\ n >= 1
      /\ Len(m) = off + n
